@@ -107,10 +107,17 @@ class ReachingDefs:
             inwork.discard(n)
             inn = set()
             for p in g.predecessors(n):
-                inn |= self.OUT[p]
+                # an exceptional edge leaves a statement *before* it completed: its own definitions have not happened
+                if g[p][n]["labels"] == {"exc"}:
+                    inn |= self.IN[p]
+                else:
+                    inn |= self.OUT[p]
             self.IN[n] = inn
             new_out = self._transfer(n, inn)
-            if new_out != self.OUT[n]:
+            if new_out != self.OUT[n] or getattr(self, "_last_in", {}).get(n) != inn:
+                if not hasattr(self, "_last_in"):
+                    self._last_in = {}
+                self._last_in[n] = set(inn)
                 self.OUT[n] = new_out
                 for s in g.successors(n):
                     if s not in inwork and s != ENTRY:
